@@ -194,15 +194,18 @@ def run_mode(prog, mode, n_app, n_re, name, bound, timer):
         def cover(c):
             covers[c] = covers.get(c, 0) + 1
 
+        startv = z3.BitVec("first_index_of_file", 8)
+        st_box = [0]
+
         def open_log():
-            r = it._invoke(init_fn, ["log", 0, 0, 0], self_ty="LogInnerManager")
+            r = it._invoke(init_fn, ["log", st_box[0], 0, 0], self_ty="LogInnerManager")
             if not (isinstance(r, Enum) and r.variant == "Ok"):
                 return None
             return r.payload[0]
 
         def mk_rec(i, index, term):
             ln = pick(it, lens[i], [1, 2])
-            return Struct("LogRecordDto", {"index": index, "term": term, "value": payload[i][:ln]}), ln
+            return Struct("LogRecordDto", {"index": st_box[0] + index, "term": term, "value": payload[i][:ln]}), ln
 
         def write(m, recd):
             r = it.call_method("LogInnerManager", "write", m, [recd])
@@ -222,7 +225,7 @@ def run_mode(prog, mode, n_app, n_re, name, bound, timer):
 
         def compare(m, ref, log, what):
             """the log's view (end index, last term, entries) against the reference list"""
-            end = it.call_method("LogInnerManager", "get_end_index", m, [])
+            end = it.call_method("LogInnerManager", "get_end_index", m, []) - st_box[0]
             if end != len(ref):
                 return ("violation", "%s: the log reports end index %s, %d entries are acknowledged and not removed" % (what, end, len(ref)), log,
                         "end-index-too-large" if end > len(ref) else "end-index-too-small")
@@ -230,7 +233,7 @@ def run_mode(prog, mode, n_app, n_re, name, bound, timer):
                 lt = it.call_method("LogInnerManager", "get_last_term", m, [])
                 if lt != ref[-1][1]:
                     return ("violation", "%s: last term reported (%s) differs from the term of the last entry (%s)" % (what, lt, ref[-1][1]), log, "last-term")
-            r = it.call_method("LogInnerManager", "read_records", m, [0, len(ref) + 3])
+            r = it.call_method("LogInnerManager", "read_records", m, [0, st_box[0] + len(ref) + 3])
             if not (isinstance(r, Enum) and r.variant == "Ok"):
                 return ("violation", "%s: entries cannot be read" % what, log, "read-fails")
             got = r.payload[0]
@@ -238,7 +241,7 @@ def run_mode(prog, mode, n_app, n_re, name, bound, timer):
                 return ("violation", "%s: %d entries are returned, %d are acknowledged and not removed" % (what, len(got), len(ref)), log,
                         "entries-resurrected" if len(got) > len(ref) else "entries-lost")
             for g, (idx, term, val) in zip(got, ref):
-                if g["index"] != idx or g["term"] != term or len(g["value"]) != len(val):
+                if g["index"] != st_box[0] + idx or g["term"] != term or len(g["value"]) != len(val):
                     return ("violation", "%s: entry %d comes back with index %s term %s payload length %d instead of index %d term %d length %d"
                             % (what, idx, g["index"], g["term"], len(g["value"]), idx, term, len(val)), log, "entry-changed")
                 for a, b in zip(g["value"], val):
@@ -249,6 +252,8 @@ def run_mode(prog, mode, n_app, n_re, name, bound, timer):
         def thunk():
             fs.files.clear()
             fs.mutations = 0
+            # the file's first index: 0, or 1 (not a multiple of the index interval: a file created after a snapshot / rollover)
+            st_box[0] = pick(it, startv, [0, 1]) if mode != "crash" else 0
             m = open_log()
             if m is None:
                 return ("violation", "a fresh log file cannot be initialised", [], "init")
@@ -256,7 +261,7 @@ def run_mode(prog, mode, n_app, n_re, name, bound, timer):
             m = open_log()
             if m is None:
                 return ("violation", "the log does not reopen after initialisation", [], "init")
-            log = []
+            log = [("first-index", st_box[0])]
             ref = []
             base_image = {k: list(v) for k, v in fs.files.items()}
             fs.journal = [] if mode == "crash" else None
@@ -280,7 +285,7 @@ def run_mode(prog, mode, n_app, n_re, name, bound, timer):
                     states.append((len(fs.journal), list(ref)))
             if mode in ("strip", "crash"):
                 k = pick(it, cutv, list(range(n_app + 1)))
-                r = it.call_method("LogInnerManager", "strip_log_to", m, [k])
+                r = it.call_method("LogInnerManager", "strip_log_to", m, [st_box[0] + k])
                 log.append(("delete-from", k))
                 if not (isinstance(r, Enum) and r.variant == "Ok"):
                     return ("violation", "delete-from fails", log, "strip-error")
